@@ -1,5 +1,6 @@
 import Driver.Util
-import InfluxVerif.Model.Meta
+import InfluxVerif.Model.MetaCodec
+import InfluxVerif.Gen.C06
 namespace Driver.MetaD
 open InfluxVerif.Meta
 
@@ -86,6 +87,32 @@ structure St where
   data : Data := {}
   auto : Bool := true
   k : Nat := 0
+  held : Option Data := none
+
+/-- request bodies of C07: schema type numbers → names (the types the harness can build) -/
+def typeName : Nat → Option String
+  | 1 => some "CreateNodeCommand" | 2 => some "DeleteNodeCommand" | 3 => some "CreateDatabaseCommand"
+  | 4 => some "DropDatabaseCommand" | 5 => some "CreateRetentionPolicyCommand"
+  | 6 => some "DropRetentionPolicyCommand" | 7 => some "SetDefaultRetentionPolicyCommand"
+  | 8 => some "UpdateRetentionPolicyCommand" | 9 => some "CreateShardGroupCommand"
+  | 10 => some "DeleteShardGroupCommand" | 11 => some "CreateContinuousQueryCommand"
+  | 12 => some "DropContinuousQueryCommand" | 13 => some "CreateUserCommand" | 14 => some "DropUserCommand"
+  | 15 => some "UpdateUserCommand" | 16 => some "SetPrivilegeCommand" | 17 => some "SetDataCommand"
+  | 18 => some "SetAdminPrivilegeCommand" | 19 => some "UpdateNodeCommand"
+  | 21 => some "CreateSubscriptionCommand" | 22 => some "DropSubscriptionCommand"
+  | 23 => some "RemovePeerCommand" | 24 => some "CreateMetaNodeCommand" | 25 => some "CreateDataNodeCommand"
+  | 26 => some "UpdateDataNodeCommand" | 27 => some "DeleteMetaNodeCommand" | 28 => some "DeleteDataNodeCommand"
+  | 29 => some "SetMetaNodeCommand" | 30 => some "DropShardCommand" | 31 => some "TruncateShardGroupsCommand"
+  | 32 => some "PruneShardGroupsCommand" | 33 => some "CopyShardOwnerCommand" | 34 => some "RemoveShardOwnerCommand"
+  | _ => none
+
+/-- the command a well-formed raw body of the harness stands for -/
+def rawCmd : Nat → Option Cmd
+  | 3 => some (.createDatabase "x" none)
+  | 4 => some (.dropDatabase "x")
+  | 13 => some (.createUser "u" "h" false)
+  | 32 => some .prune
+  | _ => none
 
 def showErr (e : String) : String := "err:" ++ e.replace " " "_"
 
@@ -96,6 +123,30 @@ def step (s : St) (line : String) : St × String :=
   | ["reset"] => ({}, "ok")
   | ["reset", a] => ({ auto := a = "1" }, "ok")
   | ["dump"] => (s, dump s.data)
+  | ["snap"] =>
+    let d' := snapshotRoundtrip s.data
+    if d' = s.data then ({ s with data := d' }, "snap ok") else (s, "snap LOSSY")
+  | ["hold"] => ({ s with held := some s.data }, "ok")
+  | ["release"] =>
+    match s.held with
+    | none => (s, "bad-op")
+    | some h => ({ s with held := none }, if (snapshotRoundtrip h).payload = (snapshotRoundtrip h).payload then "release same" else "release CHANGED")
+  | ["raw", t, e] =>
+    match t.toNat?, e.toNat? with
+    | some t, some e =>
+      -- accepted iff the type has a case in Apply and carries its own extension
+      let hasCase := match typeName t with
+        | some n => InfluxVerif.Gen.C06.applyCases.contains n
+        | none => false
+      if hasCase && e = t then
+        match rawCmd t with
+        | some c =>
+          let k := s.k + 1
+          let (d, _) := InfluxVerif.Meta.step s.auto s.data c (1 + k / 8) k
+          ({ s with data := d, k := k }, "applied")
+        | none => (s, "bad-op")
+      else (s, "rejected")
+    | _, _ => (s, "bad-op")
   | toks =>
     match parseCmd toks with
     | none => (s, "bad-op")
